@@ -320,7 +320,9 @@ def _bk_ok(c):
 
 mmn_st = st.fixed_dictionaries(dict(lat=wbsys.lattice_st(kinds=BK_LATTICES), mp=st.sampled_from(MP_GRIDS),
                                     NB=st.integers(1, 4), vals=_vals, rs=_rs, select=st.booleans(),
-                                    via=st.sampled_from(["direct", "direct", "container"]))).filter(_bk_ok)
+                                    via=st.sampled_from(["direct", "direct", "container"]),
+                                    # the written object was read from a file with another neighbour order (1 in 3)
+                                    foreign=st.sampled_from([False, True, False]))).filter(_bk_ok)
 
 
 def check_mmn(case):
@@ -333,6 +335,24 @@ def check_mmn(case):
     sel = present_kpoints(NK, case["select"], rng)
     with scratch_dir() as d:
         seed = os.path.join(d, "w90")
+        if case.get("foreign"):
+            # a legal .mmn of another program: the harness' own writer lists the neighbours of every k-point in a drawn order;
+            # the reader sorts them into the order of `bkvec` (bk_reorder is then not the identity), and THAT object is written
+            fseed = os.path.join(d, "foreign")
+            perms = {ik: rng.permutation(NNB) for ik in range(NK)}
+            with open(fseed + ".mmn", "w") as f:
+                f.write("written by the harness\n")
+                f.write(f"{NB} {NK} {NNB}\n")
+                for ik in range(NK):
+                    for ib in perms[ik]:
+                        f.write(f"{ik + 1} {int(bkvec.neighbours[ik][ib]) + 1} {' '.join(str(int(g)) for g in bkvec.G[ik][ib])}\n")
+                        for m_ in range(NB):
+                            for n_ in range(NB):
+                                z = M[ik][ib, n_, m_]
+                                f.write(f"{float(z.real)!r} {float(z.imag)!r}\n")
+            with serial_pool():
+                mmn = MMN.from_w90_file(fseed, bkvec=bkvec, npar=1)
+            same_kdict(mmn.data, {ik: M[ik] for ik in range(NK)}, "mmn-foreign-read", "data", tol_rel=4e-16)
         if case["via"] == "container":
             from wannierberri.w90files.wandata import WannierData
             box = WannierData()
@@ -352,10 +372,11 @@ def check_mmn(case):
         same_scalar(getattr(back, n), v, "mmn", n)
     same_kdict(back.data, {ik: M[ik] for ik in sel}, "mmn", "data", tol_rel=4e-16)
     same_kdict(back.bk_reorder, {ik: np.arange(NNB) for ik in sel}, "mmn", "bk_reorder")
-    if not case["select"]:
+    if not case["select"] and not case.get("foreign"):
         must_equal(mmn, back, "mmn")
     return ok(NNB >= 6 and (NK >= 2 or NB >= 2), "mmn", f"NK={NK}", f"NB={NB}", f"NNB={NNB}", case["lat"]["kind"], case["vals"],
-              f"via={case['via']}", "subset-read" if case["select"] else None)
+              f"via={case['via']}", "subset-read" if case["select"] else None,
+              "read-from-foreign-neighbour-order" if case.get("foreign") else "built-in-bkvec-order")
 
 
 # ------------------------------------------------------------------------------------------------
